@@ -27,6 +27,7 @@ func init() {
 			{ID: "C09.5", Doc: "'has answered us' is recorded only for matched responses", Floor: 5, Run: c06r1},
 			{ID: "C09.7", Doc: "the table walk starts at the target's bucket, moves one bucket nearer the root each round, and stops only when K are collected or the buckets are exhausted", Floor: 4, Run: c09r7},
 			{ID: "C09.8", Doc: "the node lists of a reply are built fresh for it (they are encoded after the handler has returned and released the lock)", Floor: 2, Run: c09r8},
+			{ID: "C09.9", Doc: "a contact that failed its liveness ping stays out of replies until it answers again (shared with C06.10)", Floor: 2, Run: c06r10},
 			{ID: "C09.6", Doc: "family selection: want list, else the requester's own family by To4", Floor: 4, Run: c09r6},
 		},
 	})
